@@ -34,14 +34,15 @@ import (
 )
 
 type vzConfig struct {
-	nVal, nByz    int
-	powers        []uint64
-	heights       uint64
-	initialHeight uint64
-	parkStores    bool
-	rotate        bool
-	dropDupMapper bool
-	maxSteps      int
+	nVal, nByz       int
+	powers           []uint64
+	heights          uint64
+	initialHeight    uint64
+	parkStores       bool
+	rotate           bool
+	rotatePowersOnly bool
+	dropDupMapper    bool
+	maxSteps         int
 	// fault rates, per thousand scheduler steps (0 = kind disabled in this run)
 	rDup, rReplay, rEarlyTimer, rCrash, rPartition, rCorrupt, rEquivocate, rStall int
 	oracles                                                                       map[string]bool
@@ -87,10 +88,13 @@ type vzWorld struct {
 	pendingCrash bool
 
 	lastFaultStep int
+	handlerSends  map[string]int
 	progressAt    int // step of the last finalization anywhere (0 = none yet)
 	notes         []string
 	seenProposals map[string][]string // "h/r" -> proposal hashes seen on the wire
 	lastErr       map[string]string   // node ident -> last ERROR log line of its engine
+	replayEnabled bool
+	adv           *vzAdv
 
 	orc vzOracles
 }
@@ -114,6 +118,7 @@ type vzNode struct {
 	wd      *gwatchdog.Watchdog
 
 	gossipIn chan tmelink.NetworkViewUpdate
+	replayCh chan tmelink.ReplayedHeaderRequest
 
 	curH uint64
 	curR uint32
@@ -194,7 +199,7 @@ func (w *vzWorld) newLogger() *slog.Logger {
 }
 
 func newVzWorld(s *vsimcore.Sim, cfg vzConfig) *vzWorld {
-	w := &vzWorld{s: s, cfg: cfg, lastErr: map[string]string{}, blocked: map[[2]int]bool{}, stalled: map[int]int{}, seenProposals: map[string][]string{}}
+	w := &vzWorld{s: s, cfg: cfg, handlerSends: map[string]int{}, lastErr: map[string]string{}, blocked: map[[2]int]bool{}, stalled: map[int]int{}, seenProposals: map[string][]string{}}
 	privVals := tmconsensustest.DeterministicValidatorsEd25519(cfg.nVal)
 	for i := range privVals {
 		privVals[i].Val.Power = cfg.powers[i]
@@ -209,6 +214,12 @@ func newVzWorld(s *vsimcore.Sim, cfg vzConfig) *vzWorld {
 	w.log = w.newLogger()
 	w.orc.init(w)
 	return w
+}
+
+// foreignPrivVals returns n deterministic validators whose keys are not in the chain's validator set.
+func (w *vzWorld) foreignPrivVals(n int) tmconsensustest.PrivVals {
+	all := tmconsensustest.DeterministicValidatorsEd25519(w.cfg.nVal + n)
+	return all[w.cfg.nVal:]
 }
 
 func (w *vzWorld) note(f string, a ...any) {
@@ -242,6 +253,19 @@ func (w *vzWorld) installHooks() {
 		id := vsimcore.Ident(ctx)
 		// handler goroutines (message deliveries, local injections) stop at every send
 		if strings.Contains(id, ".m") && op == "send" {
+			// C09: every handled message returns. A handler that keeps talking to the kernel
+			// without ever returning is wedged (bounded retries need a handful of requests).
+			w.mu.Lock()
+			w.handlerSends[id]++
+			n := w.handlerSends[id]
+			w.mu.Unlock()
+			if n == vzHandlerSendLimit {
+				w.orc.violate("C09", "handler-never-returns", "%s: the handler of one message has made %d requests to the kernel without returning (last: %s)", id, n, label)
+			}
+			if n >= vzHandlerSendLimit {
+				<-ctx.Done() // take the spinning goroutine out of the run
+				return
+			}
 			s.Park(ctx, "gchan", label)
 		}
 	}
@@ -265,6 +289,8 @@ func (w *vzWorld) installHooks() {
 		// observed and parked right after they received a value (vinst "cases" mode).
 	}
 }
+
+const vzHandlerSendLimit = 300
 
 func (w *vzWorld) removeHooks() {
 	VerifInterpose = nil
@@ -459,6 +485,9 @@ func (w *vzWorld) nextValidators(h uint64) []tmconsensus.Validator {
 	for i := range out {
 		out[i].Power = w.cfg.powers[i] + (h+uint64(i))%3
 	}
+	if w.cfg.rotatePowersOnly {
+		return out // same keys in the same order, different powers
+	}
 	// rotate the order too (keys and powers both change from height to height)
 	k := int(h % uint64(len(out)))
 	out = append(out[k:], out[:k]...)
@@ -638,13 +667,18 @@ func (w *vzWorld) start(nd *vzNode) {
 		}
 	}()
 
+	var extra []Opt
+	if w.replayEnabled {
+		nd.replayCh = make(chan tmelink.ReplayedHeaderRequest)
+		extra = append(extra, WithReplayedHeaderRequestChannel(nd.replayCh))
+	}
 	eg := &tmconsensus.ExternalGenesis{ChainID: "vsim-chain", InitialHeight: w.cfg.initialHeight, InitialAppState: new(bytes.Buffer), GenesisValidatorSet: w.fx.ValSet()}
 	st := vzStores{nd: nd, d: nd.disk}
 	strat := &vzStrategy{nd: nd, inc: inc}
 	ready := nd.ready
 	go func() {
 		defer close(ready)
-		e, err := New(wctx, nlog,
+		e, err := New(wctx, nlog, append(extra,
 			WithGenesis(eg),
 			WithCommittedHeaderStore(vzCommittedHeaderStore{st}),
 			WithFinalizationStore(vzFinalizationStore{st}),
@@ -663,7 +697,7 @@ func (w *vzWorld) start(nd *vzNode) {
 			WithInternalRoundTimer(vzRT{nd, inc}),
 			WithWatchdog(wd),
 			WithSigner(vzSigner{nd: nd, inc: inc, inner: tmconsensus.PassthroughSigner{Signer: w.fx.PrivVals[nd.idx].Signer, SignatureScheme: w.fx.SignatureScheme}}),
-		)
+		)...)
 		w.mu.Lock()
 		nd.e, nd.newErr = e, err
 		w.mu.Unlock()
